@@ -909,7 +909,7 @@ func (p *c18) runHistory(r *core.CaseResult, f *c18fn) {
 
 func (p *c18) Meta() core.Meta {
 	return core.Meta{
-		Rule: "one case per (function, first argument): FIRST, LAST, ELEMENTAT, UNWIND, ARRAY, CONCAT, IF, TO_LOWER, TO_UPPER, CHANGETYPE, DATERANGE, CONSTANT, HASH, ENCODE(+DECODE) called through SQL (SELECT f(c0, c1, ...) AS v FROM t, arguments as columns) with every tuple over the 18-value set {NULL, true, false, 0, 1, -1, 1.5, '', 'a', 'Ab', 'é', '12', '2.5', [], [1], [1,[2,3],NULL,'x'], [[1],[2]], [[[1],2],3]} and per-position domains (indices -1..5 and 1.5, type names / algorithms / bases incl. case variants and unknown ones); variadic functions up to 3 (thorough 4) arguments; plus one arity case per fixed-arity function (every count 0..n+2 except n). Oracle: 5-line reference per function; hash = hex of the algorithm's length, identical on re-evaluation; DECODE(ENCODE(v,b),b) = v in two query shapes; CHANGETYPE string<->double round trips; history cases: a successful call returns the same value before and after every failing call of the same function. non-trivial = the reference defines a value for the call; one case changing the constants map after New (5 queries x every sequence of two of 5 changes; the Query built before and a second Query given the same option value against a Query built with the current constants)",
+		Rule: "one case per (function, first argument): FIRST, LAST, ELEMENTAT, UNWIND, ARRAY, CONCAT, IF, TO_LOWER, TO_UPPER, CHANGETYPE, DATERANGE, CONSTANT, HASH, ENCODE(+DECODE) called through SQL (SELECT f(c0, c1, ...) AS v FROM t, arguments as columns) with every tuple over the 18-value set {NULL, true, false, 0, 1, -1, 1.5, '', 'a', 'Ab', 'é', '12', '2.5', [], [1], [1,[2,3],NULL,'x'], [[1],[2]], [[[1],2],3]} and per-position domains (indices -1..5 and 1.5, type names / algorithms / bases incl. case variants and unknown ones); variadic functions up to 3 (thorough 4) arguments; plus one arity case per fixed-arity function (every count 0..n+2 except n). Oracle: 5-line reference per function; hash = hex of the algorithm's length, identical on re-evaluation; DECODE(ENCODE(v,b),b) = v in two query shapes; CHANGETYPE string<->double round trips; history cases: a successful call returns the same value before and after every failing call of the same function. non-trivial = the reference defines a value for the call; one case changing the constants map after New (5 queries x every sequence of two of 5 changes; the Query built before and a second Query given the same option value against a Query built with the current constants); one large case (ELEMENTAT / FIRST / LAST on arrays of 1 000 001 and 1 200 000 elements, indices around 10^6, the last index and the length)",
 		Assumptions: []string{
 			"the reference abstains where the statement is silent: non-array arguments to array functions, non-string arguments to string functions, non-integer indices, hashing/encoding of NULL and arrays, CONCAT of arrays, CHANGETYPE of booleans",
 			"ELEMENTAT on an empty array may return NULL or an error (the statement allows both readings)",
